@@ -4,7 +4,7 @@ must report exactly that case.  A layer that accepts the corrupted input fails (
 import json
 import os
 
-from common import CACHE, ensure_oracle, log, run_harness, run_tlc, tool_error
+from common import nl_lines, CACHE, ensure_oracle, log, run_harness, run_tlc, tool_error
 from mc import run_mc
 
 
@@ -18,7 +18,7 @@ def _bad_of(res):
 def selftest_l1():
     trace = os.path.join(CACHE, "selftest-l1-%d.ndjson" % os.getpid())
     run_harness(["l1", "--oracle", ensure_oracle(), "--out", trace])
-    lines = open(trace).read().splitlines()
+    lines = nl_lines(open(trace).read())
     k = 200
     e = json.loads(lines[k])
     e["obs"]["id"] = "PVALID" if e["obs"]["id"] != "PVALID" else "DISALLOWED"
@@ -38,7 +38,7 @@ def selftest_l2():
     cfg = ("SPECIFICATION Spec\nCONSTANTS\n  NStates = 3\n  D <- MCD\n  E1 = E1\n  E2 = E2\n  MaxApps = 4\n  Starts = {1}\n"
            "INVARIANT Contract\nINVARIANT Emit\nVIEW View\nCHECK_DEADLOCK FALSE\n")
     mc = run_mc("MC_Stabilize", cfg, "selftest", workers=2, coverage=False)
-    lines = open(mc.replay_path).read().splitlines()
+    lines = nl_lines(open(mc.replay_path).read())
     os.remove(mc.replay_path)
     k = len(lines) // 2
     d = json.loads(lines[k])
@@ -49,8 +49,8 @@ def selftest_l2():
         f.write("\n".join(lines) + "\n")
     out, _ = run_harness(["replay", "--in", p])
     os.remove(p)
-    mism = [json.loads(l) for l in out.splitlines() if l.startswith('{"mismatch"')]
-    summ = [json.loads(l)["summary"] for l in out.splitlines() if l.startswith('{"summary"')][0]
+    mism = [json.loads(l) for l in nl_lines(out) if l.startswith('{"mismatch"')]
+    summ = [json.loads(l)["summary"] for l in nl_lines(out) if l.startswith('{"summary"')][0]
     # four executions per behaviour (3 string assignments x 2 Cow policies = 6) all disagree with the flipped expectation
     if summ["mismatches"] == 0 or any(m["mismatch"]["case"]["f"] != d["f"] for m in mism):
         tool_error("selftest L2: flipped expectation not reported precisely: %s" % json.dumps(summ))
@@ -61,7 +61,7 @@ def selftest_l3():
     trace = os.path.join(CACHE, "selftest-l3-%d.ndjson" % os.getpid())
     run_harness(["record", "--oracle", ensure_oracle(), "--out", trace, "--strings", "60", "--per-string", "3", "--seed", "11",
                  "--kinds", "enforce,prepare", "--profiles", "OPQ,NICK"])
-    lines = open(trace).read().splitlines()
+    lines = nl_lines(open(trace).read())
     k = None
     for i, ln in enumerate(lines):
         e = json.loads(ln)
@@ -87,7 +87,7 @@ def selftest_l3():
 def selftest_csv():
     trace = os.path.join(CACHE, "selftest-csv-%d.ndjson" % os.getpid())
     run_harness(["csvfuzz", "--seed", "5", "--rows", "300", "--out", trace])
-    lines = open(trace).read().splitlines()
+    lines = nl_lines(open(trace).read())
     k = None
     for i, ln in enumerate(lines):
         e = json.loads(ln)
